@@ -11,6 +11,16 @@ NOTE = ("Trusted: CrossHair 0.0.110 + z3, the overlay venv, the environment stub
         "isinstance shim), the harness oracles under /verif/vf. Grammars are a fixed corpus (classes cannot be symbolic); all bounds are in evidence.assumptions.")
 
 CLAIMED = {
+    "C06": dict(
+        text="Parents are produced by the real create_genotype over a symbolic source (so genes / tree shapes and leaf values are free), the real "
+             "crossover / mutate of each representation and the generic crossover / mutation steps are executed with symbolic draws, and the offspring "
+             "relation is asserted on every path: trees - child equals parent with at most one subtree replaced by a structurally equal, type-compatible "
+             "subtree of the other parent (simultaneous-descent oracle independent of the type index); linear - every locus holds the gene of one of "
+             "the parents at that locus, lengths preserved; structured - same key set, per-locus parental genes; mutation - Hamming distance <= 1 and "
+             "shape preserved. Gene identity is decided on solver terms, not sampled values. Path trees exhausted. Bounds: tree depth <= 2, gene length "
+             "<= 4 (thorough 8), structured genotypes on <= 5-key grammars.",
+        design_ref="DESIGN.md section 4 (C06)",
+    ),
     "C07": dict(
         text="For GE, structured GE, dynamic structured GE and the stack representation a genotype with fully symbolic genes (also after a symbolic "
              "mutation / crossover) is mapped twice by the real genotype_to_phenotype, with arbitrary symbolic draws of the search's shared stream in "
